@@ -4,7 +4,7 @@ import itertools
 
 import numpy as np
 
-from .. import core, gen, ref
+from .. import core, gen, ref, fitlab
 
 ID = "C08"
 LEVEL = "exploration"
@@ -20,6 +20,7 @@ MIN_EVALS = {"quick": 10000, "thorough": 100000}
 MIN_EVENTS = {"raw estimator returned NaN": 50, "curve estimates": 1000}
 TIMEOUT = {"quick": 900, "thorough": 3500}
 N_CURVES = {"quick": 22, "thorough": 130}       # per shard
+N_LARGE = {"quick": 4, "thorough": 24}           # per shard
 N_RANDOM_DEGEN = {"quick": 30, "thorough": 250}  # per shard and family
 RULE = ("curve cases = (model, E, N, baseline fraction, noise, tilt, offset) "
         "x 6 estimators x {identity, 2^n scale, arbitrary scale, shift}; "
@@ -128,9 +129,36 @@ def estimate(rec, tap, meth, force, case, family):
     return int(i) if ok else None
 
 
-def curve_case(rec, tap, rng, cid):
+MTAP = None          # fitlab.MinimizeTap, installed by run_shard / replay
+ABORTS = {}
+
+
+def judge_internal(rec, m, entries, case, large_clean):
+    """internal optimisations of the fit-based estimators, observed at
+    lmfit.minimize: on curves with a baseline and an indentation they end on
+    their own (the unchanged tree needs <= ~3700 of its 8000-14000
+    evaluations); one that runs out of its budget makes the estimator fall
+    back to the middle of the data without telling anybody"""
+    for e in entries:
+        rec.event("internal optimisations of fit-based estimators observed")
+        rec.maximum("evaluations of an internal optimisation (%s)" % m,
+                    e["nfev"])
+        if e["aborted"]:
+            rec.event("internal optimisations that ran out of budget")
+            st = ABORTS.setdefault(m, [0, None])
+            st[0] += 1
+            if st[1] is None:
+                st[1] = dict(case, method=m, nfev=e["nfev"])
+
+
+def curve_case(rec, tap, rng, cid, large_clean=False):
     mk = MODELS[int(rng.integers(4))]
     N = int(rng.choice([300, 800, 2000]))
+    if large_clean:
+        # long noise-free curves of the quadratic models: the internal
+        # optimisations of the fit-based estimators need the most steps here
+        mk = ["hertz_cone", "hertz_pyr3s"][int(rng.integers(2))]
+        N = int(rng.choice([1200, 2500, 4000]))
     base_frac = float(rng.uniform(.25, .8))
     zmax = 10 ** rng.uniform(-6.3, -5.5)
     zmin = -zmax * (1 - base_frac) / base_frac
@@ -143,6 +171,9 @@ def curve_case(rec, tap, rng, cid):
     noise = float(rng.choice([0, 0, .002, .01, .03]))
     tilt = float(rng.choice([0, 0, 0, .05]))
     offs = float(rng.choice([0, rng.uniform(-3, 3)]))
+    if large_clean:
+        noise = tilt = 0.0
+        rec.event("long noise-free quadratic curves")
     f = f + rng.normal(0, 1, N) * noise * Fmax \
         + tilt * Fmax * np.linspace(0, 1, N) + offs * Fmax
     force = np.concatenate([f, f[::-1][:N // 2]])
@@ -154,11 +185,16 @@ def curve_case(rec, tap, rng, cid):
     rec.sample(case, limit=2)
     from nanite import poc
     for m in [p.identifier for p in poc.POC_METHODS]:
+        if large_clean and not m.startswith("fit_"):
+            continue
         rec.evaluated(dg=(m, force))
         rec.event("curve estimates")
+        n_log = len(MTAP.poc_log) if MTAP is not None else 0
         i0 = estimate(rec, tap, m, force.copy(), case, "curve")
         if i0 is None:
             continue
+        if MTAP is not None:
+            judge_internal(rec, m, MTAP.poc_log[n_log:], case, large_clean)
         if clean:
             err = abs(i0 - true) / N
             rec.maximum("clean-curve error/N " + m, err)
@@ -181,8 +217,12 @@ def curve_case(rec, tap, rng, cid):
                              ("scale", force * sc, 1),
                              ("shift", force + sh, 1)]:
             rec.evaluated(dg=(m, kind, g))
+            n_log = len(MTAP.poc_log) if MTAP is not None else 0
             i1 = estimate(rec, tap, m, g, dict(case, transform=kind),
                           "curve")
+            if MTAP is not None:
+                judge_internal(rec, m, MTAP.poc_log[n_log:],
+                               dict(case, transform=kind), large_clean)
             if i1 is None:
                 continue
             rec.maximum("index change under %s" % kind, abs(i1 - i0))
@@ -226,20 +266,35 @@ def run_degenerate(rec, tap, rng, tier, shard, nshards):
 
 
 def run_shard(rec, tier, seed, shard, nshards):
+    global MTAP
     tap = Tap()
     tap.install()
+    MTAP = fitlab.MinimizeTap().install()
     try:
         for i in range(N_CURVES[tier]):
             curve_case(rec, tap, core.case_rng(seed, ID, shard, i), [shard, i])
+        for i in range(N_LARGE[tier]):
+            cid = [shard, 2 * 10 ** 6 + i]
+            curve_case(rec, tap, core.case_rng(seed, ID, cid[0], cid[1]), cid,
+                       large_clean=True)
         for m, (tot, bad, first) in ACC_STATS.items():
             if bad >= 3 and bad > .02 * tot:
                 rec.violation("accuracy/" + m, "%d of %d clean-curve "
                               "estimates outside the stated fraction, e.g. %s"
                               % (bad, tot, first[0]), first[1])
+        for m, (n, first) in ABORTS.items():
+            # (never seen on the unchanged tree; two per shard rule out a
+            #  freak case)
+            rec.check(n < 2, "internal-optimisation-out-of-budget/" + m,
+                      "%d internal optimisations of %s on well-formed curves "
+                      "ran out of their evaluation budget (estimator falls "
+                      "back to the middle of the data)" % (n, m), first)
         run_degenerate(rec, tap, core.case_rng(seed, ID, shard, 10 ** 6),
                        tier, shard, nshards)
     finally:
         tap.remove()
+        MTAP.remove()
+        MTAP = None
     rec.event("estimator calls seen by the tap", tap.calls)
 
 
@@ -251,7 +306,8 @@ def replay(rec, case):
         if c.get("kind") == "curve":
             cid = c["id"]
             curve_case(rec, tap, core.case_rng(case["seed"], ID, cid[0],
-                                               cid[1]), cid)
+                                               cid[1]), cid,
+                       large_clean=cid[1] >= 2 * 10 ** 6)
         else:
             arr = core.unjson(c["array"])
             from nanite import poc
